@@ -252,8 +252,10 @@ UNITS = []
 
 ARG_GHOSTS = {"N": ("int", "args['N']"), "fs": ("real", "args['fs']"), "olap": ("real", "args['olap']"), "bmin": ("real", "args['bmin']"), "Lmin": ("int", "args['Lmin']"), "Jdes": ("int", "args['Jdes']"), "Kdes": ("int", "args['Kdes']")}
 CALL_ENS = dict(PLAN_POST)
-for _l, _t in {**BIN_C02, **BIN_C03, **BIN_C04}.items():
-    CALL_ENS[_l] = f"forall(0, result['nf'], lambda i: {_t})"
+BIN_C04_POSTS = {k: v for k, v in BIN_C04.items() if not k.startswith("lemma.")}
+for _l, _t in {**BIN_C02, **BIN_C03, **BIN_C04_POSTS}.items():
+    # (a clause that does not mention the bin index is stated once, for a non-empty plan)
+    CALL_ENS[_l] = f"forall(0, result['nf'], lambda i: {_t})" if ("[i]" in _t or "i + 1" in _t or "[i+1]" in _t) else f"implies(result['nf'] >= 1, {_t})"
 CALL_ENS_23 = {k: v for k, v in CALL_ENS.items() if not k.startswith("C04.")}
 
 UNITS.append(
@@ -303,7 +305,7 @@ UNITS.append(
         setup=args_setup(keys=("N", "fs", "olap", "Jdes", "Kdes")),
         ghosts={**{k: v for k, v in ARG_GHOSTS.items() if k not in ("bmin", "Lmin")}, "bmin": ("real", "1.0"), "Lmin": ("int", "1")},
         requires=[c for c in ADMISSIBLE if "bmin" not in c and "Lmin" not in c],
-        ensures={**PLAN_POST, **BIN_C02, **BIN_C03, **BIN_C04},
+        ensures={**PLAN_POST, **BIN_C02, **BIN_C03, **BIN_C04_POSTS},
         post_hook=bin_ghost,
         returns=plan_result,
         opts={"ghost_defs": GD, "callee": True, "call_ensures": CALL_ENS},
@@ -329,6 +331,12 @@ V_LEMMAS = {
     "lemma.ideal_positions_in_range": "forall(0, result['K'][i], lambda m: 0 <= m * SHIFTV(result['L'][i], result['K'][i]) and m * SHIFTV(result['L'][i], result['K'][i]) <= N - result['L'][i])",
     "lemma.within_half_a_sample": "forall(0, result['K'][i], lambda m: result['D'][i][m] - m * SHIFTV(result['L'][i], result['K'][i]) <= 1/2 and m * SHIFTV(result['L'][i], result['K'][i]) - result['D'][i][m] <= 1/2)",
     "lemma.unit_shift_exact": "implies(SHIFTV(result['L'][i], result['K'][i]) == 1, forall(0, result['K'][i], lambda m: result['D'][i][m] == m))",
+}
+
+# C04 clauses that hold for the vectorised finalisation (np.round: nearest, ties to even)
+BIN_C04V = {
+    "C04.navg_nearest_integer_capped": "result['navg'][i] == NAVGE(result['L'][i]) and result['K'][i] == result['navg'][i]",
+    "C04.starts_evenly_spread": "forall(0, len(result['D'][i]), lambda m: result['D'][i][m] - m * (N - result['L'][i]) / (result['K'][i] - 1) <= 1/2 and m * (N - result['L'][i]) / (result['K'][i] - 1) - result['D'][i][m] <= 1/2) if result['K'][i] > 1 else result['D'][i][0] == 0",
 }
 
 NEW_LOOPS = {
@@ -374,12 +382,12 @@ UNITS.append(
         id="schedulers.new_ltf_plan",
         module=M,
         func="new_ltf_plan",
-        props=["C02", "C03"],
+        props=["C02", "C03", "C04"],
         setup=args_setup(),
         ghosts=dict(ARG_GHOSTS),
         requires=LTF_REQ,
         loops=NEW_LOOPS,
-        ensures={**PLAN_POST, **V_LEMMAS, **BIN_C02, **BIN_C03},
+        ensures={**PLAN_POST, **V_LEMMAS, **BIN_C02, **BIN_C03, **BIN_C04V},
         post_hook=bin_ghost,
         returns=plan_result,
         opts={"ghost_defs": GD, "callee": True, "call_ensures": CALL_ENS_23},
@@ -422,12 +430,12 @@ UNITS.append(
         id="schedulers.vectorized_ltf_plan",
         module=M,
         func="vectorized_ltf_plan",
-        props=["C02", "C03"],
+        props=["C02", "C03", "C04"],
         setup=args_setup(),
         ghosts=dict(ARG_GHOSTS),
         requires=LTF_REQ,
         loops=VEC_LOOPS,
-        ensures={**PLAN_POST, **V_LEMMAS, **BIN_C02, **BIN_C03V},
+        ensures={**PLAN_POST, **V_LEMMAS, **BIN_C02, **BIN_C03V, **BIN_C04V},
         post_hook=bin_ghost,
         returns=plan_result,
         opts={
